@@ -176,12 +176,30 @@ def classifyRule (cfg : Config Float) (name : Bytes) (ty : Nat) (spec : Option N
     if spec.isSome && (forcedIdx.isSome) && !(needBT ((toGRules cfg).map (·.pat)) true) then "backtracking_disabled_incomplete" else "none"
   else "none"
 
+/-- some reference name of the template (bare or braced) is directly followed by a byte ≥ 0x80: at each `$`,
+    skip an optional `{` and the (possibly empty) ASCII word run, test the next byte. Go's `regexp.Expand` (regex rules)
+    scans names rune by rune and may take that byte into the name (`$1é`); the glob formatter and the
+    specification do not (`SE.Props.C11.unicode_letter_after_ref_counterexample`). -/
+def nonAsciiAfterRef : Bytes → Bool
+  | [] => false
+  | b :: rest =>
+    (b == cDollar &&
+      (let s1 := match rest with
+         | c :: r => if c == cLBrace then r else rest
+         | [] => []
+       let name := s1.takeWhile isWordByte
+       (match s1.drop name.length with
+         | c :: _ => c ≥ 0x80
+         | [] => false)))
+    || nonAsciiAfterRef rest
+
 def classifyTmpl (tmpl name : Bytes) : String :=
   let refs := findRefs tmpl.length tmpl
   if tmpl.contains cPct then "template_has_percent"
   else if hasStarComp name then "literal_star_component"
   else if refs.any (fun r => r.2.contains cDollar) then "template_dollar_in_reference"   -- repaired (4d631d3): cannot fire with `isRefByte = isWordByte`
   else if hasDollarDollar tmpl then "template_dollar_escape"
+  else if nonAsciiAfterRef tmpl then "template_unicode_letter_after_ref"
   else if refs.any (fun r => refs.any (fun q => r.1 != q.1 && r.1.isPrefixOf q.1)) then "template_ref_prefix_of_ref"
   else if refs.any (fun r => (r.1.contains cLBrace) != (r.1.contains cRBrace)) then "template_brace_mismatch"
   else if refs.any (fun r => r.2.head? == some 48 && r.2.length > 1 && (atoiDigits r.2).isSome) then "template_leading_zero_ref"
@@ -247,6 +265,18 @@ def mapperSub (s : MapperSess) (toks : List String) : MapperSess × String :=
       ({ s with m := some m', n := s.n + 1 }, mappedStr r ++ (if notes.isEmpty then "" else "\t" ++ "|".intercalate notes))
     | _, _, _ => (s, "bad-op")
   | _ => (s, "bad-op")
+
+/-- `namerune <hex>`: `nameRune` on the bytes — `"<w> <0|1>"` (width, is a name rune) or `"?"` (not modelled) -/
+def nameruneCmd (args : List String) : String :=
+  match args with
+  | [h] =>
+    match decHex h with
+    | some bs =>
+      match nameRune bs with
+      | some (w, b) => s!"{w}:{if b then 1 else 0}"
+      | none => "?"
+    | none => "bad-op"
+  | _ => "bad-op"
 
 /-- `mapperrace …`: a judged stream. What the real concurrent run must report is what
     `SE.Props.C14.racing_lookup_old_or_new_interleaved` and `nothing_survives_reload` (C13) prove for the model:
